@@ -140,6 +140,44 @@ def o_greedy(src, elem, data, start, discard):
     return None
 
 
+@C.oracle('stop_signal')
+def o_stop_signal(src, width, data, start):
+    """GreedyRange over an element that reads a number and stops the range when it is 0 (StopIf is a signal, not a failure: Struct,
+    Sequence and GreedyRange stop where it was raised, 6.0): the values are the numbers before the first 0, the stream is just behind
+    that 0; without a 0 the range ends like any other, behind the last whole element"""
+    r = iso(src, data, start)
+    pos, vals, stopped = start, [], False
+    while pos + width <= len(data):
+        v = int.from_bytes(data[pos:pos + width], 'big')
+        pos += width
+        if v == 0:
+            stopped = True
+            break
+        vals.append(v)
+    if r[0] != 'ok':
+        return 'GreedyRange raised %s' % (r[1:],)
+    got = [x if isinstance(x, int) else x.get('x') for x in r[1]]
+    if got != vals:
+        return 'GreedyRange returned %r, the numbers before the stop are %r' % (got, vals)
+    if r[2] != pos:
+        return 'GreedyRange left the stream at %d, %s is at %d' % (r[2], 'the stop signal' if stopped else 'the end of the last element', pos)
+    return None
+
+
+@C.oracle('union_lambda')
+def o_union_lambda(src, const_src, data, start):
+    """Union whose parsefrom is computed at parse time behaves like the Union with that value written out (None: back at the start)"""
+    a, b = iso(src, data, start), iso(const_src, data, start)
+    if a[0] != b[0]:
+        return 'computed parsefrom: %s, constant parsefrom: %s' % (a[:2], b[:2])
+    if a[0] == 'ok':
+        if not C.veq(a[1], b[1]):
+            return 'computed parsefrom returns %r, constant %r' % (a[1], b[1])
+        if a[2] != b[2]:
+            return 'computed parsefrom leaves the stream at %d, constant at %d' % (a[2], b[2])
+    return None
+
+
 @C.oracle('pointer')
 def o_pointer(src, inner, off, data, start):
     r = iso(src, data, start)
@@ -293,6 +331,34 @@ def run(tier, seed):
         for st in (0, 1):
             cases.append(dict(src='Sequence(%s, Tell)' % src, op='parse', data=b'\xee' * st + d, start=st))
         checks.append(('pointer_root', src, dict(data=d)))
+    # a range stopped by a signal raised inside an element that has already consumed bytes
+    # (FocusedSeq lets the signal through; Struct and Sequence elements would stop themselves and the range would go on)
+    for tmpl, width in [('GreedyRange(FocusedSeq("x", "x"/Byte, StopIf(this.x == 0)))', 1), ('GreedyRange(FocusedSeq("x", "x"/Int16ub, StopIf(this.x == 0)))', 2),
+                        ('GreedyRange(FocusedSeq("x", "x"/Byte, StopIf(this.x == 0), Pass))', 1)]:
+        for d in (b'\x01\x02\x00\x05\x06', b'\x00\x01', b'\x01\x02\x03', b'', b'\x00\x00\x00\x00\x01', b'\x07\x00\x00\x09\x00'):
+            for st in (0, 1):
+                if st <= len(d):
+                    cases.append(dict(src='Sequence(%s, Tell, GreedyBytes)' % tmpl, op='parse', data=d, start=st))
+                    checks.append(('stop_signal', tmpl, dict(width=width, data=d, start=st)))
+    # parsefrom computed while parsing (an expression or a function of the context): like the constant it evaluates to
+    for comp, const in [('Union(lambda ctx: None, "a"/Byte, "b"/Int16ub)', 'Union(None, "a"/Byte, "b"/Int16ub)'),
+                        ('Union(lambda ctx: "b" if ctx.a % 2 == 0 else None, "a"/Byte, "b"/Int16ub)', None),
+                        ('Union(lambda ctx: 1, "a"/Byte, "b"/Int16ub)', 'Union(1, "a"/Byte, "b"/Int16ub)'),
+                        ('Union(this.a % 2, "a"/Byte, "b"/Int16ub)', None),
+                        ('Struct("k"/Byte, "u"/Union(lambda ctx: None if ctx._.k else "b", "a"/Byte, "b"/Int32ub), "t"/Tell)', None)]:
+        for d in (b'\x02\x03\x04\x05\x06', b'\x01\x03\x04\x05\x06', b'\x00\x00\x00\x00\x00\x00'):
+            for st in (0, 1):
+                if const is None:
+                    a0 = d[st]
+                    if 'Struct("k"' in comp:
+                        const_d = 'Struct("k"/Byte, "u"/Union(%r, "a"/Byte, "b"/Int32ub), "t"/Tell)' % (None if a0 else 'b')
+                    elif 'this.a' in comp:
+                        const_d = 'Union(%d, "a"/Byte, "b"/Int16ub)' % (a0 % 2)
+                    else:
+                        const_d = 'Union(%r, "a"/Byte, "b"/Int16ub)' % ('b' if a0 % 2 == 0 else None)
+                else:
+                    const_d = const
+                checks.append(('union_lambda', comp, dict(const_src=const_d, data=d, start=st)))
     acc.corr(cases, 'lookahead')
     for kind, src, args in checks:
         acc.check(kind, src, **args)
